@@ -215,11 +215,11 @@ def run(ctx):
 		"re-tuning while running, RFMUTE, SETFORMAT; every burst carries a unique id; per (burst, transceiver) the delivery decision "
 		"is compared with the model; distinct = distinct (configuration, burst, transceiver) decisions; all non-trivial")
 	ctx.assume("transceivers are tuned before they are powered on (an untuned child has no defined frequency)")
-	r = ctx.rng("c02")
 	for i in range(ctx.scale(500, 40000)):
-		run_config(ctx, r, i)
+		run_config(ctx, ctx.case_rng("config", i), i)
 		if ctx.too_many() or ctx.time_left() < 0:
 			break
+	ctx.current_case = None
 	sim.restore_time()
 	for k in ("deliver", "self", "not_running", "other_frequency", "sender_off"):
 		ctx.require("decision:%s" % k, 100)
@@ -232,6 +232,8 @@ def run(ctx):
 
 
 def replay(ctx, data):
-	ctx.rule = "replay: configurations are regenerated from the seed; rerunning the check with the recorded seed"
+	if common.replay_case(ctx, data, {"config": run_config}):
+		return
+	ctx.rule = "replay: no case coordinates in the witness; rerunning the check with the recorded seed"
 	ctx.seed = data.get("seed", 0)
 	run(ctx)
